@@ -1374,9 +1374,10 @@ fn run(opts: &Opts, acc: &mut Acc) {
     run_grid(acc, opts, "unspecified-grid", unspecified_grid(), "unknown escapes, string octal 400-777, raw string ending in a backslash: only totality");
 
     let scale: u32 = match (opts.tier, opts.is_dbg()) {
-        (Tier::Quick, _) => 1,
-        (Tier::Thorough, false) => 40,
-        (Tier::Thorough, true) => 6,
+        (Tier::Quick, false) => 5,
+        (Tier::Quick, true) => 1,
+        (Tier::Thorough, false) => 150,
+        (Tier::Thorough, true) => 12,
     };
     random_genomes(acc, opts, "rand-number", 6_000 * scale, 40, |gn, a| {
         let mut g = G::new(gn);
@@ -1423,5 +1424,21 @@ fn replay(_opts: &Opts, d: &Value, acc: &mut Acc) {
     let c = Case { src: src.to_string(), exp, class, nontrivial: true, tags: vec![] };
     for f in check(&c, "replay", 0, acc) {
         acc.fail(f);
+    }
+}
+
+/// libFuzzer entry: the first byte selects the literal family
+pub fn fuzz_case(genome: &[u8], acc: &mut Acc) -> Vec<Failure> {
+    let Some((k, rest)) = genome.split_first() else { return vec![] };
+    let mut g = G::new(rest);
+    match k % 5 {
+        0 => check(&gen_number_case(&mut g), "fuzz", RAND_SAMPLE_MOD, acc),
+        1 => match gen_float_case(&mut g) {
+            Some(c) => check(&c, "fuzz", RAND_SAMPLE_MOD, acc),
+            None => vec![],
+        },
+        2 => check(&gen_str_case(&mut g), "fuzz", RAND_SAMPLE_MOD, acc),
+        3 => check(&gen_bytes_case(&mut g), "fuzz", RAND_SAMPLE_MOD, acc),
+        _ => check(&gen_reject_case(&mut g), "fuzz", RAND_SAMPLE_MOD, acc),
     }
 }
